@@ -34,7 +34,7 @@ EXPLANATION = (
     "a frozen list. (R4) for every `delete` of a local pointer in the runtime libraries: on no path that is consistent in "
     "its flag variables does the function first pass the pointer to a parameter that is stored (least fixed point of "
     "'assigned to a member/element/global or passed on to a stored parameter', virtual calls expanded) and then delete it "
-    "without taking it back or re-assigning it. (E2t) every strncpy into a fixed char array with a constant size is followed, on every path to the next use of the array, by a store of 0 at an index not above that size - or cannot need one (literal source shorter than the size; zero-initialised storage whose tail is never written; a constructor-established terminator beyond the size; identifier sources under the identifier-length assumption). (R6) pointer members that a non-destructor method leaves untouched while it frees the objects reached through a sibling member of the same type (discovered: SingleLinkList::tail vs head in Empty()) are dereferenced only where the sibling is known to be non-NULL or after an assignment in the same function. (R5) every call-graph cycle reachable from the entry points (Tarjan over the resolved call graph with class-hierarchy expansion) consists of functions classified in tables/c05_recursion.json by what bounds the depth (schema structure, constant, dead branch, or only the input); input-bounded cycles and unlisted recursive functions fail. Not decided: heap lifetime beyond R4, integer overflow, the exact depth at which an input-bounded recursion exhausts the stack, time proportional to input, "
+    "without taking it back or re-assigning it. (E2t) every strncpy into a fixed char array with a constant size is followed, on every path to the next use of the array, by a store of 0 at an index not above that size - or cannot need one (literal source shorter than the size; zero-initialised storage whose tail is never written; a constructor-established terminator beyond the size; identifier sources under the identifier-length assumption). (R7) a call that passes a link field of a list / tree node (pointer fields whose pointee is the record's own hierarchy; NULL at the ends) to a function that dereferences the parameter, or calls a member function through it, before any test (summaries from the may-be-NULL walk) is guarded by a test of that field in the caller (two sites exempt with their invariant). (R6) pointer members that a non-destructor method leaves untouched while it frees the objects reached through a sibling member of the same type (discovered: SingleLinkList::tail vs head in Empty()) are dereferenced only where the sibling is known to be non-NULL or after an assignment in the same function. (R5) every call-graph cycle reachable from the entry points (Tarjan over the resolved call graph with class-hierarchy expansion) consists of functions classified in tables/c05_recursion.json by what bounds the depth (schema structure, constant, dead branch, or only the input); input-bounded cycles and unlisted recursive functions fail. Not decided: heap lifetime beyond R4, integer overflow, the exact depth at which an input-bounded recursion exhausts the stack, time proportional to input, "
     "judy.c / sc_hash.cc internals (vendored containers with structural invariants).")
 
 ENTRIES = ["STEPfile::ReadExchangeFile", "STEPfile::AppendExchangeFile", "STEPfile::ReadWorkingFile",
@@ -236,6 +236,67 @@ def r6_stale_member(prog, res):
     res.floor("R6.stale_member_guarded", "dereferences of such members", n, 1)
 
 
+R7_EXEMPT = {
+    "R7|src/clstepcore/collect.cc|ComplexCollect::supports|MultList::appendList(childList)":
+        "current is a ComplexList taken from the collection; every ComplexList is built with a head that has children (ComplexList::addChildren / the generated compstructs.cc), so head->childList is not NULL",
+    "R7|src/clstepcore/entnode.cc|EntNode::sort|EntNode::lastSmaller(next)#1":
+        "eptr1 was returned by ( *first )->lastSmaller( next ) and therefore precedes `next` in the list: eptr1->next is a node, not the end of the list",
+}
+
+
+def r7_link_argument(prog, res):
+    """The link fields of the list and tree nodes (next, prev, childList, ... : pointer fields whose pointee is the record itself or a
+    class of its hierarchy) are NULL at the ends.  A call that passes such a field to a function that dereferences the parameter (or
+    calls a member function through it) before any test is a NULL dereference waiting for the end of the list - unless the caller has
+    tested that same field."""
+    from nullness import Nullness
+    from engines import known_facts, call_args as _args
+    from ir import expr_str as _es, strip as _strip, walk as _walk
+    nn = Nullness(prog)
+    links = set()
+    for name, rec in prog.records.items():
+        for fld in rec["fields"]:
+            ty = rec["_types"][fld["t"]] if isinstance(fld.get("t"), int) else ""
+            m = ty.replace("class ", "").replace("struct ", "").replace("const ", "").strip()
+            if m.endswith("*"):
+                pt = m[:-1].strip()
+                if pt == name or pt in (prog.subclasses(name) or []) or name in (prog.subclasses(pt) or []):
+                    links.add("%s::%s" % (name, fld["n"]))
+    res.info["r7_link_fields"] = sorted(links)
+    n = 0
+    counters = {}
+    for f in prog.all_functions():
+        if f.component == "test" or f.component not in UNITS["components"]:
+            continue
+        for c in f.calls():
+            if not c.get("fk"):
+                continue
+            for i, a in enumerate(_args(c)):
+                a0 = _strip(a)
+                while a0 is not None and a0["k"] == "Cast":
+                    a0 = _strip(a0["ch"][0])
+                if a0 is None or a0["k"] != "Member" or a0.get("q") not in links:
+                    continue
+                n += 1
+                d = nn.param_deref(c["fk"], i)
+                base = "R7|%s|%s|%s(%s)" % (f.relfile(), f.name, c.get("fn"), a0["n"])
+                k0 = counters.get(base, 0)
+                counters[base] = k0 + 1
+                key = base if k0 == 0 else "%s#%d" % (base, k0)
+                if d is None:
+                    res.add("R7.link_argument_tested", key, f.where(c), True, "%s() tests the parameter before it uses it" % c.get("fn"))
+                    continue
+                ap = _es(a0)
+                guarded = any(pol and any(_es(_strip(y)) == ap for y in _walk(cn)) for cn, pol in known_facts(f, c))
+                if not guarded and key in R7_EXEMPT:
+                    res.add("R7.link_argument_tested", key, f.where(c), True, "exempt: " + R7_EXEMPT[key], assume=R7_EXEMPT[key])
+                    continue
+                res.add("R7.link_argument_tested", key, f.where(c), guarded,
+                        "`%s` is tested by the caller before it is handed to %s()" % (ap, c.get("fn")) if guarded else
+                        "`%s` (NULL at the end of the list) is passed to %s(), which uses the parameter without a test at %s (%s)" % (ap, c.get("fn"), d[1], d[2]))
+    res.floor("R7.link_argument_tested", "calls that pass a link field of a node", n, 3)
+
+
 def r5_recursion(prog, res, reachable):
     """Every call-graph cycle reachable from the entry points is classified by what bounds its depth (table
     tables/c05_recursion.json, one reason per function).  A cycle that contains a function of class `input` - only the file
@@ -329,5 +390,6 @@ def run(prog, res, tier):
     r4_handed_then_deleted(prog, res)
     r5_recursion(prog, res, reachable)
     r6_stale_member(prog, res)
+    r7_link_argument(prog, res)
     nt = memsafe.run_strncpy_terminated(prog, res, CFG, reachable)
     res.floor("E2t.strncpy_terminated", "strncpy calls into fixed arrays with a constant size", nt, 1)
